@@ -676,7 +676,7 @@ struct Formatter19
             Msg m;
             m.cid = c.cid;
             m.type = c.op->a;
-            m.line = c.op->d;
+            m.line = c.cid + 1;
             const char *xf = kFiles[(c.op->c & 0xff) % kNumFiles];
             const char *xfn = kFunctions[((c.op->c >> 8) & 0xff) % kNumFunctions];
             m.file = xf ? xf : "";
@@ -702,7 +702,7 @@ struct Formatter19
         Msg m;
         m.cid = c.cid;
         m.type = c.op->a;
-        m.line = c.op->d;
+        m.line = c.cid + 1;
         const char *xf = kFiles[(c.op->c & 0xff) % kNumFiles];
         const char *xfn = kFunctions[((c.op->c >> 8) & 0xff) % kNumFunctions];
         m.file = xf ? xf : "";
